@@ -14,11 +14,14 @@ pub struct Case {
     /// pull-until-None after push #i iff pulls[i % len]
     pub pulls: Vec<bool>,
     pub salt: u8,
+    /// what the payloads look like (0: a position pattern; others: bytes that resemble STUN
+    /// headers, magic cookies, length prefixes — the buffer must not interpret payload bytes)
+    pub style: u8,
 }
 
 impl Case {
     fn to_json(&self) -> Value {
-        json!({"kind": "tcp", "frames": self.frames, "chunks": self.chunks, "pulls": self.pulls, "salt": self.salt})
+        json!({"kind": "tcp", "frames": self.frames, "chunks": self.chunks, "pulls": self.pulls, "salt": self.salt, "style": self.style})
     }
     fn from_json(v: &Value) -> Option<Case> {
         let arr = |k: &str| -> Option<Vec<usize>> { v.get(k)?.as_array()?.iter().map(|x| x.as_u64().map(|y| y as usize)).collect() };
@@ -27,16 +30,59 @@ impl Case {
             chunks: arr("chunks")?,
             pulls: v.get("pulls")?.as_array()?.iter().map(|x| x.as_bool().unwrap_or(true)).collect(),
             salt: v.get("salt").and_then(|s| s.as_u64()).unwrap_or(0) as u8,
+            style: v.get("style").and_then(|s| s.as_u64()).unwrap_or(0) as u8,
         })
     }
 }
 
-fn payload(i: usize, n: usize, salt: u8) -> Vec<u8> {
+fn payload(i: usize, n: usize, salt: u8, style: u8) -> Vec<u8> {
     // unique id in the first bytes (as far as they fit), then a position-dependent pattern
     let mut v = Vec::with_capacity(n);
     let id = (i as u32).to_be_bytes();
     for j in 0..n {
         v.push(if j < 4 { id[j] ^ salt } else { (j as u8).wrapping_mul(31).wrapping_add(i as u8) ^ salt });
+    }
+    const COOKIE: [u8; 4] = [0x21, 0x12, 0xA4, 0x42];
+    let put = |v: &mut Vec<u8>, at: usize, b: &[u8]| {
+        for (k, x) in b.iter().enumerate() {
+            if at + k < v.len() {
+                v[at + k] = *x;
+            }
+        }
+    };
+    match style % 8 {
+        0 => {}
+        // the magic cookie where an unframed STUN header would have it, counted from the length prefix
+        1 => put(&mut v, 2, &COOKIE),
+        // the payload is a STUN message (header with a consistent length, cookie, then the pattern)
+        2 => {
+            let body = n.saturating_sub(20) & !3;
+            put(&mut v, 0, &[0x00, 0x01 | (salt & 0x10), (body >> 8) as u8, body as u8]);
+            put(&mut v, 4, &COOKIE);
+        }
+        // a STUN header advertising more (or less) than the frame holds
+        3 => {
+            let body = (n + 4 + (salt as usize & 0x3c)) & 0xfffc;
+            put(&mut v, 0, &[0x01, 0x01, (body >> 8) as u8, body as u8]);
+            put(&mut v, 4, &COOKIE);
+        }
+        // cookies everywhere
+        4 => {
+            for at in (0..n).step_by(4) {
+                put(&mut v, at + (salt as usize & 3), &COOKIE);
+            }
+        }
+        // the payload looks like a sequence of length-prefixed frames itself
+        5 => {
+            let mut at = 0;
+            while at + 2 <= n {
+                let l = (salt as usize + at) % 7;
+                put(&mut v, at, &[0, l as u8]);
+                at += 2 + l;
+            }
+        }
+        6 => v.iter_mut().for_each(|b| *b = 0xff),
+        _ => v.iter_mut().for_each(|b| *b = 0),
     }
     v
 }
@@ -44,7 +90,7 @@ fn payload(i: usize, n: usize, salt: u8) -> Vec<u8> {
 pub fn check_case(ctx: &mut Ctx, c: &Case) {
     ctx.eval();
     let w = || c.to_json();
-    let frames: Vec<Vec<u8>> = c.frames.iter().enumerate().map(|(i, n)| payload(i, *n, c.salt)).collect();
+    let frames: Vec<Vec<u8>> = c.frames.iter().enumerate().map(|(i, n)| payload(i, *n, c.salt, c.style)).collect();
     let mut stream = vec![];
     for f in &frames {
         stream.extend_from_slice(&(f.len() as u16).to_be_bytes());
@@ -192,13 +238,13 @@ pub fn run(ctx: &mut Ctx) {
             }
             chunks.push(run);
             for pulls in [vec![], vec![false], vec![true, false], vec![false, false, true]] {
-                let c = Case { frames: frames.clone(), chunks: chunks.clone(), pulls, salt: (comp as u8) ^ 0x5a };
+                let c = Case { frames: frames.clone(), chunks: chunks.clone(), pulls, salt: (comp as u8) ^ 0x5a, style: if comp % 3 == 0 { 0 } else { (comp % 8) as u8 } };
                 check_case(ctx, &c);
             }
             ctx.distinct(hash64(&[si as u64, comp]));
             ctx.count("compositions");
             if comp == ncomp / 3 && si % 97 == 0 {
-                ctx.sample("composition", || Case { frames: frames.clone(), chunks: chunks.clone(), pulls: vec![], salt: 0 }.to_json());
+                ctx.sample("composition", || Case { frames: frames.clone(), chunks: chunks.clone(), pulls: vec![], salt: 0, style: 0 }.to_json());
             }
         }
     }
@@ -251,7 +297,11 @@ pub fn run(ctx: &mut Ctx) {
             1 => vec![false],
             _ => (0..1 + rng.usize(7)).map(|_| rng.chance(1, 2)).collect(),
         };
-        let c = Case { frames, chunks, pulls, salt: rng.byte() };
+        let style = if rng.chance(1, 2) { 0 } else { rng.below(8) as u8 };
+        let c = Case { frames, chunks, pulls, salt: rng.byte(), style };
+        if style != 0 {
+            ctx.count("random-cases-with-stun-like-payloads");
+        }
         check_case(ctx, &c);
         ctx.distinct(hash64(&[0xAA, i, ctx.shard]));
         ctx.count("random-cases");
@@ -259,6 +309,47 @@ pub fn run(ctx: &mut Ctx) {
             ctx.sample("random", || c.to_json());
         }
     }
+    // ---- frames whose payloads are STUN messages / carry magic cookies at header offsets, sized
+    //      like real traffic, under every chunking style ----
+    let n2 = ctx.n(16_000, 200_000);
+    let mut rng = ctx.rng("stun-like", 0);
+    for i in 0..n2 {
+        let nf = 1 + rng.usize(6);
+        let frames: Vec<usize> = (0..nf)
+            .map(|_| match rng.below(6) {
+                0 => rng.usize(24),
+                1 => 20,
+                2 => 20 + 4 * rng.usize(30),
+                3 => 18 + rng.usize(8),
+                _ => 6 + rng.usize(120),
+            })
+            .collect();
+        let total: usize = frames.iter().map(|n| n + 2).sum();
+        let mut left = if rng.chance(1, 6) { total - rng.usize(total.min(30)) } else { total };
+        let mut chunks = vec![];
+        let cs = rng.below(4);
+        while left > 0 {
+            let c = match cs {
+                0 => 1,
+                1 => 1 + rng.usize(7),
+                2 => left,
+                _ => 1 + rng.usize(40),
+            }
+            .min(left);
+            chunks.push(c);
+            left -= c;
+        }
+        let pulls = match rng.below(3) {
+            0 => vec![],
+            1 => vec![false],
+            _ => (0..1 + rng.usize(5)).map(|_| rng.chance(1, 2)).collect(),
+        };
+        let c = Case { frames, chunks, pulls, salt: rng.byte(), style: 1 + (i % 5) as u8 };
+        check_case(ctx, &c);
+        ctx.distinct(hash64(&[0xAB, i, ctx.shard]));
+        ctx.count("stun-like-payload-cases");
+    }
+    ctx.require("stun-like-payload-cases", 1_000);
     ctx.require("compositions", 10_000);
     ctx.require("random-cases", 500);
     ctx.require("cases-with-empty-frame", 100);
